@@ -1,6 +1,7 @@
 import DcVerif.Model.CausalGraph
 import DcVerif.Props.C08Gen
 import DcVerif.Spec.ShortestPath
+import DcVerif.Lemmas.CausalGraph
 /-! # The storage half of the causal-graph model is the ultragraph model (add-only histories)
 
 `Model/CausalGraph.lean` (C01, C10) mirrors by hand the part of ultragraph that `CausaloidGraph` uses. This file relates it to
@@ -188,6 +189,21 @@ theorem c01store_cells (enc : CausalGraph.Node → Nat) (ops : List CausalGraph.
   rw [C08Gen.gen_run _ Model.UGraph.wf_init]
   unfold hasCell CausalGraph.hasEdge
   rw [(sim_build enc ops).adj]
+
+/-- `outgoing_edges(a)`: the two models list the same successors (both lists are duplicate-free; the ultragraph model's is sorted
+    by construction, the causal-graph model's is a filtered `range`) -/
+theorem c01store_outgoing_mem (enc : CausalGraph.Node → Nat) (ops : List CausalGraph.Op) (a v : Nat) :
+    v ∈ (C08Gen.genRun init (ops.map (toU enc))).1.rowOf a ↔ v ∈ CausalGraph.out (CausalGraph.build ops) a := by
+  rw [C08Gen.gen_run _ Model.UGraph.wf_init]
+  have hw := CausalGraph.wf_build ops
+  unfold rowOf CausalGraph.out
+  rw [mem_sortNat, (sim_build enc ops).adj]
+  simp only [List.mem_map, List.mem_filter, List.mem_range, CausalGraph.hasEdge, List.any_eq_true, Bool.and_eq_true, beq_iff_eq]
+  constructor
+  · rintro ⟨e, ⟨he, ha⟩, rfl⟩
+    exact ⟨(hw.adj e he).2, e, he, ha, rfl⟩
+  · rintro ⟨_, e, he, ha, hv⟩
+    exact ⟨e, ⟨he, ha⟩, hv⟩
 
 /-- non-vacuity: root, two nodes, an accepted edge, a refused duplicate and a refused edge to an absent node -/
 example :
